@@ -182,7 +182,7 @@ def run_case(case, ctx):
     from pyg_base import dictable
     sess = codec._Session()
     x = mk_table(case['x'], sess)
-    y = mk_table(case['y'], sess)
+    y = x if case.get('same_object') else mk_table(case['y'], sess)
     xc, yc = list(case['x']['cols']), list(case['y']['cols'])
     xr, yr = rows_of(x), rows_of(y)
     if len(xr) != (len(next(iter(case['x']['cols'].values()))) if xc else 0):
@@ -384,6 +384,13 @@ def gen_case(rng, maxrows):
     if r5 < 0.02 and nk >= 1 and l is not None:
         r = {'list': ['zz', 'yy', 'xx', 'ww'][:nk + 1]}  # length mismatch => ValueError
     case = {'x': {'cols': x}, 'y': {'cols': y}, 'l': _norm(l), 'r': _norm(r), 'mode': mode, 'op': op}
+    if style == 'diff' and nk and x and rng.random() < 0.15 and op in ('join', 'xor') and l is not None and r is not None:
+        # the same table object on both sides, matched on different columns (e.g. parent / node)
+        for c, k_ in zip(rnames, kinds):
+            x[c] = [keycell(rng, k_) for _ in range(nl)]
+        case['y'] = {'cols': dict(x)}
+        case['same_object'] = True
+        return case
     if rng.random() < 0.3 and nk:
         case['phase2'] = [keycell(rng, kinds[0]) for _ in range(nl)]
         case['phase2_via'] = rng.choice(['item', 'attr'])
